@@ -15,7 +15,7 @@ CPPFLAGS := -DHAVE_CONFIG_H $(GUARD) -I$(REPO) -I$(SRC) -Isim
 WARN     := -w
 PLAIN_FLAGS := -O2 -g1 -pthread $(WARN)
 ASAN_FLAGS  := -O1 -g1 -pthread $(WARN) -fsanitize=address,undefined -fno-omit-frame-pointer \
-               -fno-sanitize-recover=undefined -DTMCG_MAX_STACK_CHARS=4194304
+               -fno-sanitize-recover=undefined -fno-sanitize=enum,vla-bound -DTMCG_MAX_STACK_CHARS=4194304
 LIBS     := -lgmp -lgcrypt -lgpg-error -lpthread
 
 WRAPS := time sleep read write select fcntl gcry_randomize gcry_create_nonce gcry_mpi_randomize
